@@ -116,6 +116,64 @@ func (e *Engine) registerIntrinsics() {
 		return BV{I64(sizes[t.C])}
 	}
 	n["(crypto.Hash).HashFunc"] = func(e *Engine, st *State, a []Value, ci ssa.CallInstruction) Value { return a[0] }
+	indexByte := func(e *Engine, st *State, a []Value, ci ssa.CallInstruction) Value {
+		s := a[0].(Slice)
+		c := a[1].(BV).T
+		n := st.concreteSize(s.Len, "IndexByte length")
+		r := I64(-1)
+		if n > 0 {
+			arr := st.obj(s.Obj).Arr
+			for i := n - 1; i >= 0; i-- {
+				r = Ite(Eq(Select(arr, BVAdd(s.Off, U64(uint64(i)))), c), I64(int64(i)), r)
+			}
+		}
+		return BV{r}
+	}
+	n["internal/bytealg.IndexByte"] = indexByte
+	n["internal/bytealg.IndexByteString"] = indexByte
+	n["bytes.IndexByte"] = indexByte
+	n["strings.IndexByte"] = indexByte
+	countByte := func(e *Engine, st *State, a []Value, ci ssa.CallInstruction) Value {
+		s := a[0].(Slice)
+		c := a[1].(BV).T
+		n := st.concreteSize(s.Len, "Count length")
+		r := I64(0)
+		if n > 0 {
+			arr := st.obj(s.Obj).Arr
+			for i := 0; i < n; i++ {
+				r = BVAdd(r, Ite(Eq(Select(arr, BVAdd(s.Off, U64(uint64(i)))), c), I64(1), I64(0)))
+			}
+		}
+		return BV{r}
+	}
+	n["internal/bytealg.Count"] = countByte
+	n["internal/bytealg.CountString"] = countByte
+	n["encoding/hex.EncodeToString"] = func(e *Engine, st *State, a []Value, ci ssa.CallInstruction) Value {
+		src := a[0].(Slice)
+		cnt := st.concreteSize(src.Len, "hex.EncodeToString length")
+		arr := ZeroArr()
+		var sa *Term
+		if src.Obj != 0 {
+			sa = st.obj(src.Obj).Arr
+		}
+		digit := func(nib *Term) *Term { // nib is 8 bits wide, value 0..15
+			return Ite(BVUlt(nib, BVC(8, 10)), BVAdd(nib, BVC(8, '0')), BVAdd(nib, BVC(8, 'a'-10)))
+		}
+		for i := 0; i < cnt; i++ {
+			b := Select(sa, BVAdd(src.Off, U64(uint64(i))))
+			arr = Store(arr, U64(uint64(2*i)), digit(BVLshr(b, BVC(8, 4))))
+			arr = Store(arr, U64(uint64(2*i+1)), digit(BVAnd(b, BVC(8, 15))))
+		}
+		ln := U64(uint64(2 * cnt))
+		o := &Obj{Kind: OBytes, Arr: arr, Len: ln, ReadOnly: true}
+		if src.Obj != 0 {
+			o.HexSrc = &HexSrc{Arr: sa, Off: src.Off, Len: src.Len}
+		} else {
+			o.HexSrc = &HexSrc{Arr: ZeroArr(), Off: U64(0), Len: U64(0)}
+		}
+		id := st.newObj(o)
+		return Slice{Obj: id, Off: U64(0), Len: ln, Cap: ln}
+	}
 	nop := func(e *Engine, st *State, a []Value, ci ssa.CallInstruction) Value { return nil }
 	n["(*sync.Mutex).Lock"] = nop
 	n["(*sync.Mutex).Unlock"] = nop
